@@ -91,3 +91,12 @@ Theorem C15_counter : forall (A : Type) (r0 : A) (radd rmul : A -> A -> A) (norm
    if store then map (fun x => norm (if is_cg then msub rhs (mmul A r0 radd rmul op x) else x)) xs else []).
 Proof. exact counter. Qed.
 Print Assumptions C15_counter.
+
+(* blocked lu / gmres: every branch (weak, strong, direct) cuts the solution vector by A.domain_spaces and takes the
+   right-hand side of the weak systems with respect to A.dual_to_range_spaces (read off the current source) *)
+Theorem C15_blocked_space_lists :
+  it_blocked_result_strong IT = "domain_spaces"%string /\ it_blocked_result_weak IT = "domain_spaces"%string /\
+  lu_blocked_result LU = "domain_spaces"%string /\ it_blocked_weak_rhs IT = "dual_to_range_spaces"%string /\
+  lu_blocked_rhs LU = "dual_to_range_spaces"%string.
+Proof. exact blocked_space_lists. Qed.
+Print Assumptions C15_blocked_space_lists.
